@@ -36,6 +36,24 @@ pub fn families() -> Vec<Family> {
         .runs(100_000, 6_000_000)
         .aborts()
         .tokio(),
+        Family::new(
+            "c02_live_ws_server",
+            "C02",
+            "hostile peer sends malformed bytes as WebSocket binary messages to the real WebSocketServer; the connection is failed, a second healthy connection must still be served",
+            c02_live_ws_server,
+        )
+        .runs(30_000, 1_800_000)
+        .aborts()
+        .tokio(),
+        Family::new(
+            "c02_live_ws_client",
+            "C02",
+            "hostile server answers the real WebSocketClient with malformed bytes in binary messages while calls are in flight; calls fail, process survives",
+            c02_live_ws_client,
+        )
+        .runs(30_000, 1_800_000)
+        .aborts()
+        .tokio(),
     ]
 }
 
@@ -151,5 +169,114 @@ fn c02_live_async_client(case: &Case) {
         drop(client);
         case.nontrivial();
         let _ = server.await;
+    });
+}
+
+
+fn c02_live_ws_server(case: &Case) {
+    use crate::families::ws_common::{Inbox, raw_connect, send_frame, spawn_collector, wait_until};
+    use futures_util::{SinkExt, StreamExt};
+    use repe::websocket_server::WebSocketServer;
+    use tokio_tungstenite::tungstenite::Message as WsMessage;
+    net::reset(draw_net());
+    let (input, desc) = gen_live_input();
+    let valid_first = simkernel::choose(2) == 0;
+    case.sample(json!({"hostile_bytes": desc, "len": input.len(), "valid_request_first": valid_first}));
+    let case = case.clone();
+    aio::run(&case.clone(), 3_600, async move {
+        let counters = Arc::new(Counters::default());
+        let router = build_router(&counters, 0, true);
+        let listener = WebSocketServer::listen("127.0.0.1:0").await.unwrap();
+        let addr = listener.local_addr().unwrap();
+        let server = tokio::spawn(async move {
+            let _ = WebSocketServer::new(router).on_error(|_| {}).serve_listener(listener, "/repe").await;
+        });
+        if let Ok(ws) = raw_connect(addr, "/repe").await {
+            let (mut sink, stream) = ws.split();
+            let inbox = Arc::new(Inbox::default());
+            let collector = spawn_collector(stream, inbox.clone());
+            if valid_first {
+                let _ = send_frame(&mut sink, &Frame::new(1, b"/json/echo", b"{\"a\":1}").with_formats(1, 2)).await;
+            }
+            let _ = timeout(Duration::from_secs(2), sink.send(WsMessage::Binary(input.clone()))).await;
+            let ib = inbox.clone();
+            wait_until(300, || ib.ended()).await;
+            if let Some(b) = inbox.bad() {
+                case.fail("server-wrote-garbage", format!("server answered hostile bytes [{desc}] with {b}"));
+            }
+            let _ = timeout(Duration::from_secs(1), sink.close()).await;
+            collector.abort();
+            let _ = collector.await;
+        }
+        match raw_connect(addr, "/repe").await {
+            Ok(ws) => {
+                let (mut sink, stream) = ws.split();
+                let inbox = Arc::new(Inbox::default());
+                let collector = spawn_collector(stream, inbox.clone());
+                let _ = send_frame(&mut sink, &Frame::new(42, b"/json/echo", b"{\"ok\":true}").with_formats(1, 2)).await;
+                let ib = inbox.clone();
+                wait_until(2_000, || !ib.responses_for(42).is_empty() || ib.ended()).await;
+                let rs = inbox.responses_for(42);
+                case.check(rs.len() == 1 && rs[0].ec == 0 && rs[0].body == b"{\"echo\":{\"ok\":true}}", "healthy-connection-not-served", || format!("after hostile bytes [{desc}] a healthy request got {:?}", rs.iter().map(|f| (f.ec, String::from_utf8_lossy(&f.body).to_string())).collect::<Vec<_>>()));
+                let _ = timeout(Duration::from_secs(1), sink.close()).await;
+                collector.abort();
+                let _ = collector.await;
+            }
+            Err(e) => case.fail("healthy-connection-not-served", format!("connect after hostile bytes failed: {e}")),
+        }
+        case.nontrivial();
+        server.abort();
+        let _ = server.await;
+    });
+}
+
+fn c02_live_ws_client(case: &Case) {
+    use crate::families::ws_common::unlimited_config;
+    use futures_util::{SinkExt, StreamExt};
+    use tokio_tungstenite::tungstenite::Message as WsMessage;
+    net::reset(draw_net());
+    let (input, desc) = gen_live_input();
+    let ncalls = range(1, 4);
+    case.sample(json!({"hostile_bytes": desc, "len": input.len(), "calls_in_flight": ncalls}));
+    let case = case.clone();
+    aio::run(&case.clone(), 3_600, async move {
+        let listener = TcpListener::bind("127.0.0.1:0").await.unwrap();
+        let addr = listener.local_addr().unwrap();
+        let inp = input.clone();
+        let server = tokio::spawn(async move {
+            let Ok((stream, _)) = listener.accept().await else { return };
+            let Ok(ws) = tokio_tungstenite::accept_async_with_config(stream, Some(unlimited_config())).await else { return };
+            let (mut sink, mut stream) = ws.split();
+            let _ = timeout(Duration::from_millis(20), stream.next()).await;
+            let _ = timeout(Duration::from_secs(2), sink.send(WsMessage::Binary(inp))).await;
+            loop {
+                match timeout(Duration::from_millis(3_000), stream.next()).await {
+                    Ok(Some(Ok(_))) => {}
+                    _ => break,
+                }
+            }
+        });
+        let Ok(client) = repe::WebSocketClient::connect(&format!("ws://{addr}/repe")).await else {
+            case.harness_error("connect failed");
+            return;
+        };
+        let mut hs = Vec::new();
+        for t in 0..ncalls {
+            let c = client.clone();
+            hs.push(tokio::spawn(async move {
+                let _ = c.call_json_with_timeout(format!("/x/{t}"), &json!({"t": t}), Duration::from_millis(1_000)).await;
+            }));
+        }
+        for h in hs {
+            if let Err(e) = h.await
+                && e.is_panic()
+            {
+                case.fail("panic", format!("caller task panicked: {e}"));
+            }
+        }
+        case.check(client.verif_pending_len() == 0, "pending-residue", || format!("{} pending entries after hostile bytes [{desc}]", client.verif_pending_len()));
+        drop(client);
+        case.nontrivial();
+        let _ = timeout(Duration::from_secs(10), server).await;
     });
 }
